@@ -351,6 +351,43 @@ def big_integers_and_masks(ck, db):
                     ck.bad("raised:masked-operand", case, {"error": "%s: %s" % (type(ex).__name__, str(ex)[:160])})
 
 
+def default_units_that_are_not_the_base(ck, db):
+    """Quantity types whose own category has a default unit that is not the base unit of the table (frequency: Hz beside rad/s;
+    three more): sums and differences with that unit on either side, Scalars and list Arrays, against the units' own to-base
+    formulas - every other unit of the type (the category's default unit is one unit among the others for arithmetic)."""
+    from barril.units import Array, Scalar
+
+    ctx = ck.ctx
+    n = 0
+    for qt in sorted(db.quantity_types):
+        try:
+            du, base = db.GetDefaultUnit(qt), db.GetBaseUnit(qt)
+        except Exception:
+            continue
+        if du == base:
+            continue
+        tb = {i.unit: i.tobase for i in db.GetInfos(qt)}
+        others = [u for u in tb if u != du][:8]
+        for v in others:
+            for x, y in ((1.0, 1.0), (2.5, 500.0)):
+                for form, fn, want in (("du + v", lambda: Scalar(x, du) + Scalar(y, v), tb[du](x) + tb[v](y)), ("v + du", lambda: Scalar(y, v) + Scalar(x, du), tb[du](x) + tb[v](y)), ("du - v", lambda: Scalar(x, du) - Scalar(y, v), tb[du](x) - tb[v](y)),
+                                       ("v - du", lambda: Scalar(y, v) - Scalar(x, du), tb[v](y) - tb[du](x)), ("[du] + [v]", lambda: Array([x, x], du) + Array([y, y], v), tb[du](x) + tb[v](y)), ("(v) - (du)", lambda: Array((y,), v) - Array((x,), du), tb[v](y) - tb[du](x))):  # fmt: skip
+                    ctx.ev()
+                    n += 1
+                    ctx.nt(("default unit is not the base", qt, v, form))
+                    case = {"quantity_type": qt, "default_unit_of_its_category": du, "base_unit": base, "other_unit": v, "form": form, "amounts": [x, y]}
+                    try:
+                        res = fn()
+                        val = res.GetValue() if isinstance(res, Scalar) else res.GetValues()[0]
+                        got = tb[res.GetUnit()](float(val))
+                    except Exception as e:
+                        ctx.violation("default-unit-sum:raised", dict(case, error="%s: %s" % (type(e).__name__, str(e)[:160])), replay=case)
+                        continue
+                    if not abs(got - want) <= 1e-9 * (abs(want) + abs(tb[du](x)) + abs(tb[v](y))):
+                        ctx.violation("default-unit-sum:value:%s" % form, dict(case, got_in_base_units=got, want_in_base_units=want, result=repr(res)[:120]), replay=case)
+    ctx.count("sums with a category default unit that is not the base unit", n)
+
+
 def cancelling_categories(ck, db, r, n):
     """a right operand whose categories partly cancel inside one quantity type (length**2 / diameter is a length, its
     quantity-type string reads 'length') added to a plain amount of that type in another unit - Scalars and Arrays."""
@@ -440,6 +477,7 @@ def run(ctx):
             zero_derived_operands(ck, db)
             array_layouts(ck, db)
             big_integers_and_masks(ck, db)
+            default_units_that_are_not_the_base(ck, db)
     ctx.inconclusive_if(probe.COUNTS["UnitDatabase.Sum"] == 0 or probe.COUNTS["UnitDatabase.Subtract"] == 0, "Sum/Subtract never reached")
 
 
